@@ -106,18 +106,36 @@ def run(ctx, chk):
     chk.explanation = EXPL
     P = ctx.program
     G = ctx.gram("print")
-    chk.rule("C17.R1", "each printed label names the register/flag whose value follows it, in the documented format", floor=24)
+    chk.rule("C17.R1", "each printed label names the register/flag whose value follows it, in the documented format", floor=12)
     chk.rule("C17.R2", "printing can only read the machine", floor=4)
     chk.rule("C17.R3", "memory ranges: closed forms of start/end, every index < 2^20", floor=10)
     chk.rule("C17.R4", "program statement and prompt use the same print parser", floor=2)
     chk.rule("C17.R5", "assembler validates and forwards print statements unchanged", floor=3)
     chk.rule("C17.R6", "16 bytes per row (finite-state column counter)", floor=3)
     file = G.g["file"]
-    prods = G.productions("Print")
+    def flatten(nt, prefix=(), depth=0):
+        """the print commands as (keyword sequence, nonterminal owning the action, index, production): alternatives that
+        only hand on the value of one sub-nonterminal (`Print = "print" <PrintTarget>`, `Print = { print_reg, .. }`)
+        are replaced by that nonterminal's alternatives, their keywords appended"""
+        out = []
+        for k, p in enumerate(G.productions(nt)):
+            terms = tuple(s["name"].strip('"') for s in p["symbols"] if s["t"] == "term")
+            nts_ = [(i, s["name"]) for i, s in enumerate(p["symbols"]) if s["t"] == "nt"]
+            ua = G.main_user_action(p["action"])
+            names_ = ua.get("arg_names") or []
+            passes = len(nts_) == 1 and depth < 3 and nts_[0][1] in G.nts and G.nts[nts_[0][1]].get("type") == G.nts[nt].get("type") and (
+                ua.get("kind") != "user" or (nts_[0][0] < len(names_) and (ua.get("code") or "").strip() == names_[nts_[0][0]])
+                or (G.nts[nt].get("type") == "()" and (ua.get("code") or "").strip() in ("()", "")))
+            if passes:
+                out.extend(flatten(nts_[0][1], prefix + terms, depth + 1))
+            else:
+                out.append((prefix + terms, nt, k, p))
+        return out
+    flat = flatten("Print")
+    prods = flat
     by_terms = {}
-    for k, p in enumerate(prods):
-        terms = tuple(s["name"].strip('"') for s in p["symbols"] if s["t"] == "term")
-        by_terms[terms] = (k, p)
+    for terms, pnt, k, p in flat:
+        by_terms[terms] = (pnt, k, p)
     # ---------------- R1 registers
     def action_of(p):
         return G.main_user_action(p["action"])
@@ -156,6 +174,8 @@ def run(ctx, chk):
         return seq
 
     kp = by_terms.get(("print", "reg"))
+    if kp is not None:
+        kp = (kp[1], kp[2])
     if kp is None:
         chk.violation("C17.R1", "print reg", "missing", "the print grammar has no `print reg` production", file)
     else:
@@ -207,6 +227,8 @@ def run(ctx, chk):
             chk.ok("C17.R1", "reg:resolution", f"placeholders paired with the compiler's borrow sequence (*vm).arch.{{{','.join(seq)}}}")
     # ---------------- R1 flags
     kp = by_terms.get(("print", "flags"))
+    if kp is not None:
+        kp = (kp[1], kp[2])
     if kp is None:
         chk.violation("C17.R1", "print flags", "missing", "the print grammar has no `print flags` production", file)
     else:
@@ -308,11 +330,11 @@ def run(ctx, chk):
             if fo and init.get("k") != "cast":
                 chk.violation("C17.R1", "print flags", f"bool-{name}", f"{name} is printed as a bool (true/false), documented 0/1", where)
     # memory byte format
-    for terms, (k, p) in by_terms.items():
+    for terms, (pnt, k, p) in by_terms.items():
         if terms[:2] != ("print", "mem"):
             continue
         ua = action_of(p)
-        label = G.prod_label("Print", k)
+        label = G.prod_label(pnt, k)
         from asm import action_and_helper_asts
         for mc in [m_ for ast_ in action_and_helper_asts(G, p) for m_ in macros(ast_)]:
             if len(mc.get("args") or []) == 2 and mc["args"][1].get("k") == "index":
@@ -357,14 +379,13 @@ def run(ctx, chk):
     # ---------------- R3
     for terms, want in ((("print", "mem", "->"), "a->b"), (("print", "mem", ":"), None)):
         pass
-    for k, p in enumerate(prods):
-        terms = tuple(s["name"].strip('"') for s in p["symbols"] if s["t"] == "term")
+    for terms, pnt, k, p in prods:
         if terms[:2] != ("print", "mem"):
             continue
-        label = G.prod_label("Print", k)
+        label = G.prod_label(pnt, k)
         where = f"{file}:{p['line']}"
         nts = [s for s in p["symbols"] if s["t"] != "term"]
-        I, st, v, r = run_production(ctx, "print", "Print", k)
+        I, st, v, r = run_production(ctx, "print", pnt, k)
         ranges = [e for e in I.events if e.kind == "call" and (e.fref.get("def") or "").endswith("RangeInclusive::<Idx>::new")]
         plain = [e for e in I.events if e.kind == "call" and "Range<" in (e.fref.get("inst") or "") and (e.fref.get("def") or "").endswith("into_iter")]
         excl = [e for e in I.events if e.kind == "call" and (e.fref.get("inst") or "").startswith("<std::ops::Range<") and (e.fref.get("inst") or "").endswith("into_iter")
@@ -435,8 +456,11 @@ def run(ctx, chk):
         if v is None and not st.dead:
             pass
     # raw_addr
-    for k, p in enumerate(G.productions("raw_addr")):
-        I, st, v, r = run_production(ctx, "print", "raw_addr", k)
+    # the address nonterminal: whichever nonterminal the `print mem` commands take their numbers from
+    addr_nts = sorted({s["name"] for terms, pnt, k, p in prods if terms[:2] == ("print", "mem") for s in p["symbols"] if s["t"] == "nt"})
+    addr_nt = addr_nts[0] if len(addr_nts) == 1 else "raw_addr"
+    for k, p in enumerate(G.productions(addr_nt) if addr_nt in G.nts else []):
+        I, st, v, r = run_production(ctx, "print", addr_nt, k)
         if v is not None and v.kind == "int" and v.lo >= 0 and v.hi < (1 << 20):
             chk.ok("C17.R3", f"raw_addr#{k}", f"value in [{v.lo},{v.hi}]")
         else:
@@ -506,11 +530,10 @@ def run(ctx, chk):
     except Exception as e:  # noqa
         chk.undecided_("C17.R5", "print_stmt", f"{type(e).__name__}: {e}")
     # ---------------- R6 row layout
-    for k, p in enumerate(prods):
-        terms = tuple(s["name"].strip('"') for s in p["symbols"] if s["t"] == "term")
+    for terms, pnt, k, p in prods:
         if terms[:2] != ("print", "mem"):
             continue
-        label = G.prod_label("Print", k)
+        label = G.prod_label(pnt, k)
         ua = action_of(p)
         loops = []
         from asm import action_and_helper_asts
